@@ -181,6 +181,100 @@ func ctxSwitchSites() []string {
 	return rows
 }
 
+// typeChecks: in fn, the reflect type predicates applied (method names on reflect.Type values), in source order
+func typeChecks(fn string) []string {
+	_, f, _ := parseFile("compiler.go")
+	fd := findFunc(f, fn)
+	if fd == nil {
+		fail("func %s not found", fn)
+	}
+	var out []string
+	ast.Inspect(fd.Body, func(n ast.Node) bool {
+		if ce, ok := n.(*ast.CallExpr); ok {
+			if se, ok := ce.Fun.(*ast.SelectorExpr); ok {
+				switch se.Sel.Name {
+				case "AssignableTo", "ConvertibleTo", "Convert", "CanConvert", "Implements":
+					out = append(out, strconv.Quote(exprString(se.X)+"."+se.Sel.Name))
+				}
+			}
+		}
+		return true
+	})
+	return out
+}
+
+// errorfSites: every fmt.Errorf whose arguments mention an error variable (err / e), by file:function, and whether
+// its format wraps it with %w (so that errors.Is / errors.As still see the cause)
+func errorfSites() []string {
+	var rows []string
+	for _, file := range []string{"compiler.go", "helper_context.go", "partial_helper.go", "template.go", "plush.go", "helpers/content/for.go", "helpers/content/of.go"} {
+		_, f, _ := parseFile(file)
+		for _, d := range f.Decls {
+			fd, ok := d.(*ast.FuncDecl)
+			if !ok || fd.Body == nil {
+				continue
+			}
+			ast.Inspect(fd.Body, func(n ast.Node) bool {
+				ce, ok := n.(*ast.CallExpr)
+				if !ok || exprString(ce.Fun) != "fmt.Errorf" || len(ce.Args) < 2 {
+					return true
+				}
+				mentions := false
+				for _, a := range ce.Args[1:] {
+					if id, ok := a.(*ast.Ident); ok && (id.Name == "err" || id.Name == "e" || id.Name == "ferr") {
+						mentions = true
+					}
+				}
+				if mentions {
+					format := ""
+					if bl, ok := ce.Args[0].(*ast.BasicLit); ok {
+						format = bl.Value
+					}
+					rows = append(rows, fmt.Sprintf("  (%s, %v)", strconv.Quote(file+":"+fd.Name.Name), strings.Contains(format, "%w")))
+				}
+				return true
+			})
+		}
+	}
+	return rows
+}
+
+// scopeOpenDepth: in fn, the block nesting depth (0 = the function body) of the statement that opens the new scope
+// (`<recv>.ctx = <x>.New()`), or -1 when there is none
+func scopeOpenDepth(file, fn string) int {
+	_, f, _ := parseFile(file)
+	fd := findFunc(f, fn)
+	if fd == nil {
+		fail("func %s not found", fn)
+	}
+	depth := -1
+	var walk func(b *ast.BlockStmt, d int)
+	walk = func(b *ast.BlockStmt, d int) {
+		for _, st := range b.List {
+			if as, ok := st.(*ast.AssignStmt); ok && len(as.Lhs) == 1 && strings.HasSuffix(exprString(as.Lhs[0]), ".ctx") &&
+				len(as.Rhs) == 1 && strings.HasSuffix(exprString(as.Rhs[0]), ".New(…)") || ok && len(as.Lhs) == 1 && strings.HasSuffix(exprString(as.Lhs[0]), ".ctx") && len(as.Rhs) == 1 && strings.HasSuffix(exprString(as.Rhs[0]), ".New()") {
+				if depth == -1 {
+					depth = d
+				}
+			}
+			ast.Inspect(st, func(n ast.Node) bool {
+				switch x := n.(type) {
+				case *ast.FuncLit:
+					return false
+				case *ast.BlockStmt:
+					if x != b {
+						walk(x, d+1)
+						return false
+					}
+				}
+				return true
+			})
+		}
+	}
+	walk(fd.Body, 0)
+	return depth
+}
+
 func genEvalDispatch() {
 	_, _, sha := parseFile("compiler.go")
 	er, ee := switchArms("evalExpression")
@@ -202,6 +296,13 @@ func genEvalDispatch() {
 	}
 	sb.WriteString("/-- every place that makes another context current (`x.ctx = …`), by file:function, and whether a `defer` in the\n    same block restores the previous one (so that it is restored on the error paths too) -/\n")
 	sb.WriteString("def ctxSwitchSites : List (String × Bool) := [\n" + strings.Join(ctxSwitchSites(), ",\n") + "\n]\n\n")
+	sb.WriteString("/-- the reflect type predicates `evalCallExpression` applies while binding arguments and filling omitted parameters -/\n")
+	sb.WriteString("def callTypeChecks : List String := [" + strings.Join(typeChecks("evalCallExpression"), ", ") + "]\n\n")
+	sb.WriteString("/-- every `fmt.Errorf` that is handed an error variable, and whether it wraps it with %w -/\n")
+	sb.WriteString("def errorfSites : List (String × Bool) := [\n" + strings.Join(errorfSites(), ",\n") + "\n]\n\n")
+	sb.WriteString("/-- block depth (0 = the function body itself, i.e. unconditional) of the statement that opens the fresh scope -/\n")
+	fmt.Fprintf(&sb, "def scopeOpenDepths : List (String × Int) := [(\"evalUserFunction\", %d), (\"evalForExpression\", %d), (\"evalIndexCallee\", %d)]\n\n",
+		scopeOpenDepth("compiler.go", "evalUserFunction"), scopeOpenDepth("compiler.go", "evalForExpression"), scopeOpenDepth("compiler.go", "evalIndexCallee"))
 	sb.WriteString("end Plush.Gen\n")
 	emit("EvalDispatch", "compiler.go", sha, sb.String())
 }
